@@ -187,10 +187,12 @@ class Model(object):
         self.classes = {}
         self.consulted = set()
         self.renamed = {}
+        self.inlined = {}
         if not os.path.isdir(self.pkgdir):
             raise AnalysisError("package directory missing: %s" % self.pkgdir)
         self._load()
         self._resolve_bases()
+        self._normalise()
 
     # ------------------------------------------------------------------ load
     def _load(self):
@@ -240,6 +242,15 @@ class Model(object):
         for node in mi.tree.body:
             self._index_stmt(mi, node)
 
+    def _normalise(self):
+        """Behaviour-preserving normal form relative to the reference tree:
+        helpers that did not exist there are expanded inline (sa/inline.py),
+        then renamed locals are mapped back (sa/alpha.py)."""
+        from . import inline
+        self.inlined = inline.expand_new_helpers(self)
+        for q, fi in self.funcs.items():
+            self._alpha(q, fi.node)
+
     def _alpha(self, qual, node):
         """Map renamed locals back onto the reference names (sa/alpha.py)."""
         from . import alpha
@@ -251,7 +262,6 @@ class Model(object):
 
     def _index_stmt(self, mi, node):
         if isinstance(node, (ast.FunctionDef, ast.AsyncFunctionDef)):
-            self._alpha(mi.name + "." + node.name, node)
             fi = FuncInfo(mi.name + "." + node.name, mi.name, None, node.name,
                           node, mi.relpath)
             mi.functions[node.name] = fi
@@ -263,7 +273,6 @@ class Model(object):
             self.classes[ci.qual] = ci
             for sub in node.body:
                 if isinstance(sub, (ast.FunctionDef, ast.AsyncFunctionDef)):
-                    self._alpha(ci.qual + "." + sub.name, sub)
                     fi = FuncInfo(ci.qual + "." + sub.name, mi.name, ci.qual,
                                   sub.name, sub, mi.relpath)
                     ci.methods[sub.name] = fi
